@@ -11,6 +11,8 @@ import re
 
 import z3
 
+import time
+
 import mir
 import tmir
 import travcheck as tc
@@ -50,7 +52,27 @@ def lookup(K, i):
     return e
 
 
-def resolve_copy(S, tag, n_imports, n_declared, n_defined, prefix=None):
+def diag_texts(s2):
+    """message / hint / context strings of the diagnostics of a path, as z3 strings (absent = the empty marker)"""
+    out = []
+    for e in s2.events:
+        if e[0] not in ('push', 'diag'):
+            continue
+        d = e[2] if e[0] == 'push' else e[1]
+        if not (isinstance(d, tuple) and d[0] == 'struct'):
+            continue
+        f = dict(zip(d[3], d[2]))
+        for name in ('message', 'hint', 'context_message'):
+            v = f.get(name)
+            if isinstance(v, tuple) and v[0] == 'enum' and v[1] == 'Option':
+                v = v[3][0] if v[2] == 'Some' else z3.StringVal('<none>')
+            if isinstance(v, tuple) and v[0] == 'fmt':
+                v = mir.fmt_to_z3(v)
+            out.append(v if z3.is_expr(v) else z3.StringVal(str(v)))
+    return out
+
+
+def resolve_copy(S, tag, n_imports, n_declared, n_defined, prefix=None, unambiguous=False):
     fn = [g for g in S.prog.fns if (re.search(r'(^|::)validation::resolve_type$', g.name) or g.name == 'resolve_type') and '::verif' not in g.name]
     if len(fn) != 1:
         raise mir.Unsupported('resolve_type: %d candidates' % len(fn))
@@ -72,6 +94,11 @@ def resolve_copy(S, tag, n_imports, n_declared, n_defined, prefix=None):
     st.pc += [z3.Int('t.%d#disc' % ki) == kinds.index('Unresolved')]
     if len(I) > 1:
         st.pc += [z3.Distinct(*I)]
+    if unambiguous:
+        import resolvecheck
+        for x in range(len(I)):
+            for y in range(x):
+                st.pc += [z3.Not(z3.And(resolvecheck.matches(N, I[x]), resolvecheck.matches(N, I[y])))]
     if len(K) > 1:
         st.pc += [z3.Distinct(*[k for k, _v in K])]
     rk = S.enums['ResolvedItemKind']
@@ -89,6 +116,7 @@ def resolve_copy(S, tag, n_imports, n_declared, n_defined, prefix=None):
             continue
         kind = s2.heap.get(('field', 't', ki))
         ndg = len([e for e in s2.events if e[0] in ('push', 'diag')])
+        dtexts = diag_texts(s2)
         if kind is None:
             oc = ('unresolved', None, None, ndg)
         elif kind[0] == 'enum' and kind[2] == 'AndroidType':
@@ -104,9 +132,10 @@ def resolve_copy(S, tag, n_imports, n_declared, n_defined, prefix=None):
             oc = ('item', key if z3.is_expr(key) else z3.StringVal(str(key)), kd, ndg)
         else:
             oc = ('other:' + str(kind[:3]), None, None, ndg)
-        pcs = rename(list(s2.pc) + [x for x in oc[1:3] if z3.is_expr(x)], shared, (prefix or tag) + '!')
+        pcs = rename(list(s2.pc) + [x for x in oc[1:3] if z3.is_expr(x)] + dtexts, shared, (prefix or tag) + '!')
         npc = len(s2.pc)
         ren = pcs[npc:]
+        dren = ren[len(ren) - len(dtexts):] if dtexts else []
         oc2 = [oc[0]]
         r_i = 0
         for x in oc[1:3]:
@@ -115,14 +144,15 @@ def resolve_copy(S, tag, n_imports, n_declared, n_defined, prefix=None):
             else:
                 oc2.append(x)
         oc2.append(oc[3])
+        oc2.append(tuple(dren))
         out.append((pcs[:npc], tuple(oc2)))
     return out, I, Kd
 
 
 def resolve_pair(S, n_imports, n_declared, na, nb):
     """-> (pairs examined, queries, violations)"""
-    A, I, KA = resolve_copy(S, 'A', n_imports, n_declared, na)
-    B, _I, KB = resolve_copy(S, 'B', n_imports, n_declared, nb)
+    A, I, KA = resolve_copy(S, 'A', n_imports, n_declared, na, unambiguous=True)
+    B, _I, KB = resolve_copy(S, 'B', n_imports, n_declared, nb, unambiguous=True)
     agree = [lookup(KA, i) == lookup(KB, i) for i in I]
     N = z3.String('t.%d' % S.structs['Type'].index('name'))
     # the file itself is unambiguous: at most one of its imports matches the written name (with two matching imports the
@@ -133,13 +163,15 @@ def resolve_pair(S, n_imports, n_declared, na, nb):
             agree.append(z3.Not(z3.And(resolvecheck.matches(N, I[a]), resolvecheck.matches(N, I[b]))))
     nq, viol, pairs = 0, [], 0
     for pa, oa in A:
+        if tmir.DEADLINE[0] is not None and time.time() > tmir.DEADLINE[0]:
+            raise mir.Unsupported('time cap of the task reached while comparing path pairs')
         for pb, ob in B:
             pairs += 1
             differ = []
             if oa[0] != ob[0] or oa[3] != ob[3]:
                 differ = [z3.BoolVal(True)]
             else:
-                for x, y in zip(oa[1:3], ob[1:3]):
+                for x, y in zip(list(oa[1:3]) + list(oa[4]), list(ob[1:3]) + list(ob[4])):
                     if z3.is_expr(x) and z3.is_expr(y):
                         if not x.eq(y):
                             differ.append(x != y)
@@ -147,9 +179,8 @@ def resolve_pair(S, n_imports, n_declared, na, nb):
                         differ = [z3.BoolVal(True)]; break
             if not differ:
                 continue
-            s = z3.Solver(); s.set('timeout', 60000)
-            s.add(*pa); s.add(*pb); s.add(*agree); s.add(z3.Or(differ))
-            r = s.check(); nq += 1
+            import zutil
+            r, s = zutil.check(list(pa) + list(pb) + list(agree) + [z3.Or(differ)], 60000); nq += 1
             if r == z3.sat:
                 m = s.model()
                 viol.append({'what': 'two key maps that agree on every import of the file give different results for a type reference',
@@ -211,13 +242,14 @@ def imports_pair(S, n, nres, na, nb):
     agree = [(lookup(KA, q) != 0) == (lookup(KB, q) != 0) for q in Q]
     nq, viol, pairs = 0, [], 0
     for pa, oa in A:
+        if tmir.DEADLINE[0] is not None and time.time() > tmir.DEADLINE[0]:
+            raise mir.Unsupported('time cap of the task reached while comparing path pairs')
         for pb, ob in B:
             pairs += 1
             if oa == ob:
                 continue
-            s = z3.Solver(); s.set('timeout', 60000)
-            s.add(*pa); s.add(*pb); s.add(*agree)
-            r = s.check(); nq += 1
+            import zutil
+            r, s = zutil.check(list(pa) + list(pb) + list(agree), 60000); nq += 1
             if r == z3.sat:
                 m = s.model()
                 viol.append({'what': 'two key maps that agree on every import of the file give different import diagnostics',
@@ -238,13 +270,15 @@ def choice_pair_resolve(S, n_imports, n_declared, n_defined):
     N = z3.String('t.%d' % S.structs['Type'].index('name'))
     nq, viol, pairs = 0, [], 0
     for pa, oa in A:
+        if tmir.DEADLINE[0] is not None and time.time() > tmir.DEADLINE[0]:
+            raise mir.Unsupported('time cap of the task reached while comparing path pairs')
         for pb, ob in B:
             pairs += 1
             differ = []
             if oa[0] != ob[0] or oa[3] != ob[3]:
                 differ = [z3.BoolVal(True)]
             else:
-                for x, y in zip(oa[1:3], ob[1:3]):
+                for x, y in zip(list(oa[1:3]) + list(oa[4]), list(ob[1:3]) + list(ob[4])):
                     if z3.is_expr(x) and z3.is_expr(y):
                         if not x.eq(y):
                             differ.append(x != y)
@@ -252,9 +286,8 @@ def choice_pair_resolve(S, n_imports, n_declared, n_defined):
                         differ = [z3.BoolVal(True)]; break
             if not differ:
                 continue
-            s = z3.Solver(); s.set('timeout', 60000)
-            s.add(*pa); s.add(*pb); s.add(z3.Or(differ))
-            r = s.check(); nq += 1
+            import zutil
+            r, s = zutil.check(list(pa) + list(pb) + [z3.Or(differ)], 60000); nq += 1
             if r == z3.sat:
                 m = s.model()
                 viol.append({'what': 'the classification of a type reference depends on the iteration order of the import set',
@@ -305,13 +338,14 @@ def choice_pair_declared(S, n, nimp, nres):
     B = declared_copy(S, 'B', n, nimp, nres)
     nq, viol, pairs = 0, [], 0
     for pa, oa, _r in A:
+        if tmir.DEADLINE[0] is not None and time.time() > tmir.DEADLINE[0]:
+            raise mir.Unsupported('time cap of the task reached while comparing path pairs')
         for pb, ob, _r2 in B:
             pairs += 1
             if oa == ob:
                 continue
-            s = z3.Solver(); s.set('timeout', 60000)
-            s.add(*pa); s.add(*pb)
-            r = s.check(); nq += 1
+            import zutil
+            r, s = zutil.check(list(pa) + list(pb), 60000); nq += 1
             if r == z3.sat:
                 viol.append({'what': 'the diagnostics of the forward declarations depend on the iteration order of the import map',
                              'diagsA': [x[:3] for x in oa], 'diagsB': [x[:3] for x in ob]})
